@@ -1,7 +1,9 @@
 """Bounded replay finders: run the REAL compiled code against the executable form of a unit's contract.
 Never the deciding step: they attach a concrete failing input to a violation, and in `thorough` cross-check that
 the contract proved about the extracted text also holds at run time on the compiled original."""
+import json
 import os
+import time
 import re
 import subprocess
 
@@ -54,32 +56,78 @@ CRATE_FINDERS = {
     "plan": ("src/app/run.rs", "units/plan/finder_test.rs"),
 }
 # further finders of a unit (integration tests driving the binary)
-EXTRA_FINDERS = {"log": [("tests/", "units/log/finder_show_test.rs")], "config": [("tests/", "units/config/finder_generate_test.rs")]}
+EXTRA_FINDERS = {"log": [("tests/", "units/log/finder_show_test.rs"), ("tests/", "units/log/finder_tail_test.rs")], "config": [("tests/", "units/config/finder_generate_test.rs")]}
 CACHE = os.path.join(U.VERIF, ".cache")
 
 
+def _sync_mtimes(dst, cache_dir):
+    """cargo decides freshness by mtime.  The scratch copy keeps /repo's mtimes (rsync -a), so a file whose CONTENT differs from what
+    the shared target directory was last built from, but whose mtime is old (a tree restored from a snapshot, another tree given through
+    VERIF_REPO, a host file that carried another unit's finder last time), would be taken for unchanged and a stale binary would be
+    tested.  Every file whose content differs from the last build's content is therefore touched; identical files keep their mtimes."""
+    import hashlib
+    man_path = os.path.join(cache_dir, "src_manifest.json")
+    try:
+        with open(man_path) as fh:
+            old = json.load(fh)
+    except Exception:
+        old = {}
+    new = {}
+    now = time.time()
+    for root, dirs, files in os.walk(dst):
+        dirs[:] = [d for d in dirs if d not in ("target", ".git")]
+        for fn in files:
+            p = os.path.join(root, fn)
+            rel = os.path.relpath(p, dst)
+            try:
+                with open(p, "rb") as fh:
+                    h = hashlib.sha256(fh.read()).hexdigest()
+            except OSError:
+                continue
+            new[rel] = h
+            if old.get(rel) != h:
+                os.utime(p, (now, now))
+    if set(old) - set(new):
+        # something the last build saw is gone: make the manifest of the crate look changed as well
+        os.utime(os.path.join(dst, "Cargo.toml"), (now, now))
+    with open(man_path, "w") as fh:
+        json.dump(new, fh)
+
+
 def run_crate_finder(unit_name, scratch, only=None, spec=None):
-    spec = spec or CRATE_FINDERS[unit_name]
     """append the unit's finder module to a scratch copy of /repo and run it with `cargo test` (real compiled code)"""
+    import fcntl
     import shutil
+    spec = spec or CRATE_FINDERS[unit_name]
     host, test = spec
     dst = os.path.join(scratch, "crate_" + unit_name)
-    if os.path.exists(dst):
-        shutil.rmtree(dst)
-    subprocess.run(["rsync", "-a", "--exclude", "target", "--exclude", ".git", U.REPO + "/", dst + "/"], check=True)
-    tpath = os.path.join(U.VERIF, test)
-    env = dict(os.environ, CARGO_TARGET_DIR=os.path.join(CACHE, "target-finder"), CARGO_NET_OFFLINE="true")
-    os.makedirs(CACHE, exist_ok=True)
-    if host == "tests/":
-        # an integration test that drives the real binary
-        os.makedirs(os.path.join(dst, "tests"), exist_ok=True)
-        shutil.copy(tpath, os.path.join(dst, "tests", "verif_finder_%s.rs" % unit_name))
-        cmd = ["cargo", "test", "--offline", "--test", "verif_finder_%s" % unit_name, "--", "--nocapture", "--test-threads", "1"]
-    else:
-        with open(os.path.join(dst, host), "a", encoding="utf-8") as fh:
-            fh.write('\n#[cfg(test)]\n#[path = "%s"]\nmod verif_finder;\n' % tpath)
-        cmd = ["cargo", "test", "--offline", "--lib", "verif_finder::" + (only or "vf_"), "--", "--nocapture", "--test-threads", "1"]
-    r = subprocess.run(cmd, cwd=dst, env=env, capture_output=True, text=True, timeout=1800)
+    tdir = os.path.join(CACHE, "target-finder")
+    os.makedirs(tdir, exist_ok=True)
+    lock = open(os.path.join(CACHE, "finder.lock"), "w")
+    fcntl.flock(lock, fcntl.LOCK_EX)   # one finder build/run at a time: the target directory and its source manifest are shared
+    try:
+        if os.path.exists(dst):
+            shutil.rmtree(dst)
+        subprocess.run(["rsync", "-a", "--exclude", "target", "--exclude", ".git", U.REPO + "/", dst + "/"], check=True)
+        tpath = os.path.join(U.VERIF, test)
+        env = dict(os.environ, CARGO_TARGET_DIR=tdir, CARGO_NET_OFFLINE="true")
+        if host == "tests/":
+            # an integration test that drives the real binary
+            os.makedirs(os.path.join(dst, "tests"), exist_ok=True)
+            tname = "verif_%s_%s" % (unit_name, os.path.basename(test)[:-3])
+            shutil.copy(tpath, os.path.join(dst, "tests", tname + ".rs"))
+            cmd = ["cargo", "test", "--offline", "--test", tname, "--", "--nocapture", "--test-threads", "1"]
+        else:
+            # the finder becomes a child module of the host file (it sees the private items); the module file sits next to the host
+            shutil.copy(tpath, os.path.join(dst, os.path.dirname(host), "verif_finder_mod.rs"))
+            with open(os.path.join(dst, host), "a", encoding="utf-8") as fh:
+                fh.write('\n#[cfg(test)]\n#[path = "verif_finder_mod.rs"]\nmod verif_finder;\n')
+            cmd = ["cargo", "test", "--offline", "--lib", "verif_finder::" + (only or "vf_"), "--", "--nocapture", "--test-threads", "1"]
+        _sync_mtimes(dst, tdir)
+        r = subprocess.run(cmd, cwd=dst, env=env, capture_output=True, text=True, timeout=1800)
+    finally:
+        fcntl.flock(lock, fcntl.LOCK_UN)
+        lock.close()
     fails = re.findall(r"VF-FAIL (.*?) :: (.*)$", r.stdout, re.M)
     sums = re.findall(r"VF-SUMMARY test=(\S+) checked=(\d+) nontrivial=(\d+) bad=(\d+)", r.stdout, re.M)
     built = "Running unittests" in r.stderr or "running " in r.stdout
